@@ -9,13 +9,16 @@ package ipoe
 //
 // Case: "e2e <op>..." with
 //
-//	D<t>   DHCPv4 DISCOVER from tuple t (0..3)           (ipoe session-creation path, dhcpv4.go)
+//	D<t>   DHCPv4 DISCOVER from tuple t (0..3)           (ipoe session-creation path handleDiscover, dhcpv4.go)
+//	Q<t>   DHCPv4 REQUEST without a preceding DISCOVER   (ipoe session-creation path handleRequest, dhcpv4.go)
+//	S<t>   DHCPv6 SOLICIT                                (ipoe session-creation path handleDHCPv6Solicit, dhcpv6.go)
 //	P<t>   PPPoE PADI + PADR from tuple t                (pppoe session-creation path, handlePADR)
 //
-// After every op the system is left to settle (event bus drained, handlers finished) and one
-// snapshot token is printed for the tuple:
+// After every op the system is left to settle (sentinel events through the bus until neither the
+// number of published events nor the snapshot changes any more) and one token is printed with the
+// state of ALL four tuples, the op's own tuple first:
 //
-//	t<t>:i<n>p<m>:<owner>
+//	t<t>:i<n>p<m>:<owner>,t<u>:...,...
 //
 // n = IPoE sessions for the tuple in the ipoe component's own session index, m = PPPoE sessions
 // created for the tuple (PADS sent) and not yet released (lifecycle "released" event), owner =
@@ -38,6 +41,7 @@ import (
 	aaacfg "github.com/veesix-networks/osvbng/pkg/config/aaa"
 	"github.com/veesix-networks/osvbng/pkg/config/subscriber"
 	"github.com/veesix-networks/osvbng/pkg/dataplane"
+	"github.com/veesix-networks/osvbng/pkg/dhcp6"
 	"github.com/veesix-networks/osvbng/pkg/events"
 	"github.com/veesix-networks/osvbng/pkg/events/local"
 	"github.com/veesix-networks/osvbng/pkg/ifmgr"
@@ -76,6 +80,8 @@ type c17World struct {
 	created  map[string]map[uint16]bool
 	released map[uint16]bool
 	activity int64
+	sentinel, sentinelSeen int64
+	ipoeBusy int
 	cancel   context.CancelFunc
 }
 
@@ -95,7 +101,7 @@ func c17NewWorld() *c17World {
 	cfg := &config.Config{
 		SubscriberGroups: &subscriber.SubscriberGroupsConfig{
 			Groups: map[string]*subscriber.SubscriberGroup{
-				"grp": {IPv4Profile: "v4", AAAPolicy: "p1", VLANs: []subscriber.VLANRange{{SVLAN: "100"}}},
+				"grp": {IPv4Profile: "v4", IPv6Profile: "v6", AAAPolicy: "p1", VLANs: []subscriber.VLANRange{{SVLAN: "100"}}},
 			},
 		},
 		AAA: aaacfg.AAAConfig{Policy: []aaacfg.AAAPolicy{{Name: "p1", Type: aaacfg.PolicyTypeDHCP, Format: "$mac-address$"}}},
@@ -108,6 +114,12 @@ func c17NewWorld() *c17World {
 	w.bus.SubscribeAll(func(ev events.Event) {
 		w.mu.Lock()
 		defer w.mu.Unlock()
+		if n, ok := ev.Data.(int64); ok && ev.Source == "verif" {
+			if n > w.sentinelSeen {
+				w.sentinelSeen = n
+			}
+			return
+		}
 		w.activity++
 		switch d := ev.Data.(type) {
 		case *events.EgressEvent:
@@ -144,7 +156,15 @@ func c17NewWorld() *c17World {
 		exclusivity: w.reg, accessResolver: c17Mixed{},
 	}
 	w.ic.SetReadyState(component.StateReady)
-	w.bus.Subscribe(events.TopicSubscriberTerminate, w.ic.handleSubscriberTerminate)
+	w.bus.Subscribe(events.TopicSubscriberTerminate, func(ev events.Event) {
+		w.mu.Lock()
+		w.ipoeBusy++
+		w.mu.Unlock()
+		w.ic.handleSubscriberTerminate(ev)
+		w.mu.Lock()
+		w.ipoeBusy--
+		w.mu.Unlock()
+	})
 	// the pppoe component through its exported constructor and Start
 	pc, err := pppoe.New(component.Dependencies{EventBus: w.bus, ConfigManager: cm, Exclusivity: w.reg,
 		AccessResolver: c17Mixed{}, PPPChan: w.pppCh}, srg, ifMgr, nil)
@@ -168,23 +188,63 @@ func (w *c17World) close() {
 	w.bus.Close()
 }
 
-// wait until nothing has been published for a while and the snapshot is stable
+const c17Sentinel = "verif:c17:sentinel"
+
+// one barrier: a sentinel event published now has been dispatched by the bus, i.e. every event published
+// before it has been handed to its handlers
+func (w *c17World) barrier() bool {
+	w.mu.Lock()
+	w.sentinel++
+	want := w.sentinel
+	w.mu.Unlock()
+	w.bus.Publish(c17Sentinel, events.Event{Source: "verif", Data: want})
+	for i := 0; i < 2000; i++ {
+		w.mu.Lock()
+		got := w.sentinelSeen
+		w.mu.Unlock()
+		if got >= want {
+			return true
+		}
+		time.Sleep(500 * time.Microsecond)
+	}
+	return false
+}
+
+// settled = four consecutive barrier rounds during which nobody but this harness published an event, no ipoe
+// terminate handler was running, and the snapshot of all tuples stayed the same
 func (w *c17World) settle(t c17Tuple) string {
 	last, stable := "", 0
-	deadline := time.Now().Add(2 * time.Second)
+	var lastAct int64 = -1
+	deadline := time.Now().Add(5 * time.Second)
 	for time.Now().Before(deadline) {
-		time.Sleep(3 * time.Millisecond)
-		s := w.snapshot(t)
-		if s == last {
+		if !w.barrier() {
+			break
+		}
+		time.Sleep(2 * time.Millisecond)
+		s := w.snapshotAll(t)
+		w.mu.Lock()
+		act, busy := w.activity, w.ipoeBusy
+		w.mu.Unlock()
+		if s == last && act == lastAct && busy == 0 {
 			stable++
-			if stable >= 6 {
+			if stable >= 4 {
 				return s
 			}
 		} else {
-			last, stable = s, 0
+			last, lastAct, stable = s, act, 0
 		}
 	}
 	return last + "!unsettled"
+}
+
+func (w *c17World) snapshotAll(first c17Tuple) string {
+	parts := []string{w.snapshot(first)}
+	for _, t := range c17Tuples {
+		if t.name != first.name {
+			parts = append(parts, w.snapshot(t))
+		}
+	}
+	return strings.Join(parts, ",")
 }
 
 func (w *c17World) snapshot(t c17Tuple) string {
@@ -226,6 +286,19 @@ func (w *c17World) discover(t c17Tuple) {
 	_ = w.ic.handleDiscover(&dataplane.ParsedPacket{MAC: t.mac, OuterVLAN: t.svl, InnerVLAN: t.cvl, SwIfIndex: 10, DHCPv4: dh})
 }
 
+func (w *c17World) request(t c17Tuple) {
+	dh := &layers.DHCPv4{Operation: layers.DHCPOpRequest, HardwareType: layers.LinkTypeEthernet, HardwareLen: 6, Xid: 0x1235,
+		ClientHWAddr: t.mac, Options: layers.DHCPOptions{layers.NewDHCPOption(layers.DHCPOptMessageType, []byte{byte(layers.DHCPMsgTypeRequest)})}}
+	_ = w.ic.handleRequest(&dataplane.ParsedPacket{MAC: t.mac, OuterVLAN: t.svl, InnerVLAN: t.cvl, SwIfIndex: 10, DHCPv4: dh})
+}
+
+func (w *c17World) solicit(t c17Tuple) {
+	msg := &dhcp6.Message{MsgType: dhcp6.MsgTypeSolicit, TransactionID: [3]byte{1, 2, 3}}
+	msg.Options.ClientID = []byte{0, 3, 0, 1, t.mac[0], t.mac[1], t.mac[2], t.mac[3], t.mac[4], t.mac[5]}
+	_ = w.ic.handleDHCPv6Solicit(&dataplane.ParsedPacket{MAC: t.mac, OuterVLAN: t.svl, InnerVLAN: t.cvl, SwIfIndex: 10,
+		DHCPv6: &layers.DHCPv6{}}, msg, nil)
+}
+
 func (w *c17World) pppoeConnect(t c17Tuple) {
 	mk := func(code layers.PPPoECode, payload []byte) *dataplane.ParsedPacket {
 		return &dataplane.ParsedPacket{Protocol: models.ProtocolPPPoEDiscovery, MAC: t.mac, OuterVLAN: t.svl, InnerVLAN: t.cvl, SwIfIndex: 10,
@@ -245,17 +318,21 @@ func (w *c17World) pppoeConnect(t c17Tuple) {
 	if cookie == nil {
 		panic("no PADO")
 	}
+	w.mu.Lock()
+	before := len(w.created[t.name])
+	w.mu.Unlock()
 	w.pppCh <- mk(layers.PPPoECodePADR, pppoepkt.NewTagBuilder().AddServiceName("").AddACCookie(cookie).Build())
-	// wait for the PADS
-	for i := 0; i < 400; i++ {
-		time.Sleep(2 * time.Millisecond)
+	// wait for the PADS of a NEW session id
+	for i := 0; i < 2000; i++ {
+		time.Sleep(time.Millisecond)
 		w.mu.Lock()
 		n := len(w.created[t.name])
 		w.mu.Unlock()
-		if n > 0 {
-			break
+		if n > before {
+			return
 		}
 	}
+	panic("no PADS")
 }
 
 func c17E2E(f []string) (out string) {
@@ -272,6 +349,10 @@ func c17E2E(f []string) (out string) {
 		switch op[0] {
 		case 'D':
 			w.discover(t)
+		case 'Q':
+			w.request(t)
+		case 'S':
+			w.solicit(t)
 		case 'P':
 			w.pppoeConnect(t)
 		default:
